@@ -12,11 +12,14 @@ Import ListNotations.
 Local Open Scope string_scope.
 
 Record uobj := mkObj {
-  o_file : string;       (* Position.Filename (= DisplayPosition.Filename: no //line directives in the inputs) *)
+  o_file : string;       (* Position.Filename (raw position: what the merge key is built from) *)
   o_line : N;
   o_col : N;
   o_name : string;       (* Object.Name, e.g. "(*T).m" *)
-  o_kind : string
+  o_kind : string;
+  o_dfile : string;      (* DisplayPosition (differs from Position under //line directives): where the problem is printed *)
+  o_dline : N;
+  o_dcol : N
 }.
 
 Record vresult := mkRes {
@@ -72,7 +75,7 @@ Definition merge_spec (rs : list vresult) : list (ukey * uobj) :=
 (* what the CLI prints for one emitted pair: position and message *)
 Definition problem := (string * N * N * string)%type.
 Definition problem_of (uo : ukey * uobj) : problem :=
-  let o := snd uo in (o_file o, o_line o, o_col o, o_kind o ++ " " ++ o_name o ++ " is unused").
+  let o := snd uo in (o_dfile o, o_dline o, o_dcol o, o_kind o ++ " " ++ o_name o ++ " is unused").
 Definition problem_eqb (a b : problem) : bool :=
   match a, b with (f1, l1, c1, m1), (f2, l2, c2, m2) =>
     String.eqb f1 f2 && N.eqb l1 l2 && N.eqb c1 c2 && String.eqb m1 m2 end.
